@@ -165,7 +165,11 @@ func register(p Property) { Registry[p.ID()] = p }
 
 // StepBudgetDefault bounds every single call that is not judged by C04's own budget: far above
 // anything a terminating expansion of a generated world needs.
-const StepBudgetDefault = 3_000_000
+const StepBudgetDefault = 400_000
+
+// StepBudgetMeta is the guard for calls that may expand the built-in Swagger meta-schema (C16),
+// which alone costs a few hundred thousand function entries.
+const StepBudgetMeta = 4_000_000
 
 // Expansion is what one ExpandSpec call under the simulator produced.
 type Expansion struct {
